@@ -26,9 +26,10 @@ use crate::{
 
 type P = RistrettoPoint;
 
-const OPS: [&str; 18] = [
+const OPS: [&str; 19] = [
     "opening-new-drop",
     "opening-clone-drop",
+    "opening-clone-from",
     "witness-init-drop",
     "witness-init-refused",
     "witness-clone-drop",
@@ -145,6 +146,24 @@ fn op_body(cfg: Cfg, op: &'static str, res: &mut CaseResult) -> Option<()> {
                 let o2 = o.clone();
                 drop(o2);
                 drop(o);
+                report(&mut res, &sec, op, allocmon::disarm());
+            },
+            "opening-clone-from" => {
+                // clone_from onto an opening with another number of blinding factors (and onto a vector of openings of another
+                // length): the storage that is replaced held secrets
+                let mut o = CommitmentOpening::new(wit.values[0], wit.blindings[0].clone());
+                let other = CommitmentOpening::new(7, vec![Scalar::ONE; cfg.d + 1]);
+                allocmon::arm();
+                o.clone_from(&other);
+                drop(o);
+                report(&mut res, &sec, op, allocmon::disarm());
+                let mut v = mk_openings(wit);
+                let shorter: Vec<CommitmentOpening> = vec![];
+                let longer: Vec<CommitmentOpening> = (0..cfg.m + 1).map(|_| CommitmentOpening::new(3, vec![Scalar::ONE; (cfg.d % 6) + 1])).collect();
+                allocmon::arm();
+                v.clone_from(&longer);
+                v.clone_from(&shorter);
+                drop(v);
                 report(&mut res, &sec, op, allocmon::disarm());
             },
             "witness-init-drop" => {
